@@ -210,10 +210,13 @@ func (e *Executor) parseQuery(
 	doc, err := parser.ParseQueryWithTokenLimit(&ast.Source{Input: query}, e.parserTokenLimit)
 	if err != nil {
 		gqlErr, ok := err.(*gqlerror.Error)
-		if ok {
-			errcode.Set(gqlErr, errcode.ParseFailed)
-			return nil, gqlerror.List{gqlErr}
+		if !ok {
+			// not every parser failure is a *gqlerror.Error (exceeding the token limit is a
+			// plain error); the truncated document must not be validated or executed
+			gqlErr = gqlerror.Wrap(err)
 		}
+		errcode.Set(gqlErr, errcode.ParseFailed)
+		return nil, gqlerror.List{gqlErr}
 	}
 	stats.Parsing.End = graphql.Now()
 
